@@ -676,6 +676,18 @@ class C06(HttpProp):
             ops += ["reopen", f"walk {c}", f"http GET snap - hyph={c} absent e"]
             out.append(Case(f"c06-len-{k // per}", ops, mode="http"))
         out += interleaved_upload_cases("c06", rng, sizes(tier, 12, 100))
+        # on a data directory written by the pinned release: what it stored is returned byte for byte, and
+        # what is uploaded on top of it under this build as well (a snapshot replacing a stored snapshot)
+        from .props_l1 import fixture_info
+        fx = fixture_info()
+        for k, name in enumerate(sorted(fx)):
+            for c in sorted(fx[name]):
+                ops = [f"fixture {name}", f"walk {c}", f"http GET snap - hyph={c} absent e",
+                       f"http POST av hyph=latest:{c} hyph={c} history r:{500 + 7 * k}", f"http GET gcv hyph=anc:{c}:1 hyph={c} absent e",
+                       f"http POST as hyph=latest:{c} hyph={c} snapshot r:{7000 + k}", f"http GET snap - hyph={c} absent e",
+                       f"http POST av hyph=latest:{c} hyph={c} history b:1,2,3", f"http POST as hyph=latest:{c} hyph={c} snapshot chunks:40,50",
+                       f"http GET snap - hyph={c} absent e", "reopen", f"http GET snap - hyph={c} absent e", f"walk {c}"]
+                out.append(Case(f"c06-fixture-{name}-{c}", ops, {"only": "sqlite", "fixture": name}, mode="http"))
         # byte classes x sizes, one-byte chunkings
         classes = {"zeros": "0", "ff": "255", "digits": "49,50,51,52,53", "utf8": "195,169,226,130,172", "badutf8": "195,40,255,254",
                    "nul": "65,0,66,0,0", "quote": "39,34,92,0",
